@@ -57,6 +57,8 @@ pub enum Guarded {
 }
 #[derive(Clone, Debug, Serialize, Deserialize)]
 pub enum Step {
+    /// the clock (inserted by the core's clock faults): nothing but time passes
+    Wait { n: u32 },
     Grant { account: usize, role: usize, caller: usize, signer: Option<usize> },
     Revoke { account: usize, role: usize, caller: usize, signer: Option<usize> },
     Renounce { role: usize, caller: usize, signer: Option<usize> },
@@ -86,6 +88,7 @@ impl Model {
     }
     fn apply_for(&mut self, s: &Step, example: bool) -> bool {
         match *s {
+            Step::Wait { .. } => true,
             Step::Grant { account, role, caller, signer } => {
                 if signer != Some(caller) || !self.may_manage(caller, role) {
                     return false;
@@ -153,6 +156,9 @@ impl Check for Access {
     }
     fn components(&self) -> serde_json::Value {
         serde_json::json!({"real": ["examples/nft-access-control (from source; 35 % of the runs)", "stellar_access::access_control::* (trait defaults)", "stellar_macros::{only_admin, only_role, has_role, only_any_role, has_any_role}"], "stub": ["Wallet"]})
+    }
+    fn clock_step(&self, n: u32) -> Option<Step> {
+        Some(Step::Wait { n })
     }
     fn dup_ok(&self, _s: &Step) -> bool {
         true
@@ -247,6 +253,12 @@ impl Check for Access {
             }
             let before = w.storage_digest(&[&id]);
             let (kind, got) = match s {
+                Step::Wait { n } => {
+                    w.advance(*n);
+                    st.ledgers += *n as u64;
+                    st.hit("clock.advance");
+                    ("wait", true)
+                }
                 Step::Grant { account, role: r, caller, signer } => {
                     one(*signer, "grant_role", (a(*account), role(*r), a(*caller)).into_val(e));
                     ("grant_role", c.try_grant_role(&a(*account), &role(*r), &a(*caller)).is_ok())
@@ -311,7 +323,9 @@ impl Check for Access {
                 },
             };
             let exp = m.apply_for(s, cfg.example);
-            st.tx(kind, got);
+            if kind != "wait" {
+                st.tx(kind, got);
+            }
             if got != exp {
                 let check = match (kind, got) {
                     ("grant_role", true) => "grant.needs_admin_or_role_admin",
